@@ -31,6 +31,7 @@ type TraceRef struct {
 	TZ0      int
 	StepLine []int // chunk line number of the step line of event i
 	ObsSpec  ObsSpec
+	Snapshot map[string][]byte // damage traces: the undamaged repository
 }
 
 func NewChunk(dir string) *Chunk {
@@ -105,6 +106,11 @@ func tlcCmd(dir string, xmx string, args ...string) *exec.Cmd {
 
 // Judge writes the chunk files and runs the TLC trace judge (module mod, e.g. GoitTrace) on them.
 func (c *Chunk) Judge(mod string, timeout time.Duration) *JudgeResult {
+	return c.JudgeWant(mod, timeout, []string{"ALL"})
+}
+
+// JudgeWant evaluates only the clauses of the wanted properties ("ALL" = every clause).
+func (c *Chunk) JudgeWant(mod string, timeout time.Duration, want []string) *JudgeResult {
 	t0 := time.Now()
 	res := &JudgeResult{Hits: map[int][]string{}, Counts: map[string]int{}}
 	if err := writeNdjson(filepath.Join(c.Dir, "trace.ndjson"), c.Lines); err != nil {
@@ -123,6 +129,14 @@ func (c *Chunk) Judge(mod string, timeout time.Duration) *JudgeResult {
 		if l["kind"] == "step" {
 			res.Steps++
 		}
+	}
+	{
+		q := []string{}
+		for _, w := range want {
+			q = append(q, strconv.Quote(w))
+		}
+		cfg := "SPECIFICATION TraceSpec\nPOSTCONDITION TraceAccepted\nCHECK_DEADLOCK FALSE\nCONSTANT Want = {" + strings.Join(q, ", ") + "}\n"
+		os.WriteFile(filepath.Join(c.Dir, mod+".cfg"), []byte(cfg), 0o666)
 	}
 	cmd := tlcCmd(c.Dir, "3g", "-workers", "1", "-config", mod+".cfg", mod+".tla")
 	out, err := os.Create(filepath.Join(c.Dir, "tlc.out"))
@@ -161,11 +175,11 @@ func (c *Chunk) Judge(mod string, timeout time.Duration) *JudgeResult {
 				continue
 			}
 			var rec struct {
-				K string         `json:"k"`
-				I int            `json:"i"`
-				C json.RawMessage `json:"c"`
-				P []string       `json:"p"`
-				KF []string      `json:"kf"`
+				K  string          `json:"k"`
+				I  int             `json:"i"`
+				C  json.RawMessage `json:"c"`
+				P  []string        `json:"p"`
+				KF []string        `json:"kf"`
 			}
 			if json.Unmarshal([]byte(s), &rec) != nil {
 				continue
